@@ -203,6 +203,8 @@ def shape_of(case):
             parts.append("%s=%s" % (pn, rel))
         elif tc == "Z" and ref_len is None:
             parts.append("%s%s" % (pn, "<0" if v < 0 else "=0" if v == 0 else ">0"))
+        elif tc == "B" and ref_len is None:
+            parts.append("%s=U+%04X" % (pn, ord(v)))
         elif tc == "K" and ref_len is None:
             parts.append("%s%s%s" % (pn, "<0" if v < 0 else "=0" if v == 0 else ">0", "" if v == int(v) else " frac"))
     return ", ".join(parts)
@@ -479,6 +481,8 @@ def judge_driver(chk, r, state):
                 state["uncompilable"].setdefault(c.group.key, (r.src, r.compile.err[-1500:]))
             return []
         chk.count("drivers_not_compiling_split")
+        with chk.lock:
+            state["uncompilable"].setdefault("<driver %s>" % r.name, (r.src, r.compile.err[-1500:] or "rc=%s" % r.compile.rc))
         return [("split", cases)]
     rc = r.run.rc
     rte = "Laufzeitfehler" in r.run.err
@@ -611,7 +615,10 @@ def plan_cases(duden, seed, tier, chk, state):
     per_group = 26 if tier == "quick" else 130
     cases = []
     cid = 0
+    only = os.environ.get("C17_GROUPS")      # development aid: regex over "Module.Function"; recorded in the evidence
     for g in M.GROUPS:
+        if only and not re.search(only, g.key):
+            continue
         for T in g.etypes:
             sig = group_signature(duden, g, T or "Z")
             if sig is None:
@@ -845,6 +852,8 @@ def run(tier):
     chk.extra["distinct_violation_signatures"] = {k: v for k, v in sorted(state["reported"].items())}
     chk.extra["model_notes"] = {g.key: g.note for g in M.GROUPS if g.note}
     chk.extra["excluded_functions"] = M.EXCLUDED_FUNCTIONS
+    if os.environ.get("C17_GROUPS"):
+        chk.extra["group_filter(partial run)"] = os.environ["C17_GROUPS"]
     if state["misresolved"]:
         chk.extra["calls_resolved_elsewhere(sample)"] = dict(list(state["misresolved"].items())[:20])
     if state["uncompilable"]:
